@@ -4,17 +4,17 @@
 
    Inputs of the model = what steps 2-5 hand to step 6 for one flex line:
      per item  flex_base_size, min_<main>, max_<main> (None = inf), flex-grow, flex-shrink,
-               main_outer_extra (3.A: borders + non-auto margins - the paddings are NOT in it),
-               and the paddings (used only by step 12 and by the css reference);
+               main_outer_extra (3.A: paddings + borders + non-auto margins);
      main_gap, available_main_space = the definite main size of the container.
    hypothetical_main_size is computed as step 3 does: max(min, min(base, max)).
-   `available_main_space == inf` cannot occur in step 6 (step 4 has made the main size definite). *)
-From Coq Require Import QArith Qminmax Qround Qabs List Bool ZArith Lia.
+   `available_main_space == inf` cannot occur in step 6 (step 4 has made the main size definite), so the
+   two `== inf` conversions of 9.7.5.b are not modelled. *)
+From Coq Require Import QArith Qminmax Qabs List Bool ZArith Lia.
 Import ListNotations.
 Open Scope Q_scope.
 
 Record item := mkItem {
-  ibase : Q; imin : Q; imax : option Q; igrow : Q; ishrink : Q; iextra : Q; ipad : Q }.
+  ibase : Q; imin : Q; imax : option Q; igrow : Q; ishrink : Q; iextra : Q }.
 
 Definition qmin_opt (x : Q) (m : option Q) : Q := match m with None => x | Some y => Qmin x y end.
 (* max(min_size, min(x, max_size)) *)
@@ -42,14 +42,17 @@ Definition choose_mode (items : list item) (gap avail : Q) : mode :=
 (* per item state of the loop *)
 Record fst := mkF { fit : item; ffrozen : bool; ftarget : Q }.
 
-(* 9.7.3 ; target_main_size of a non-frozen item is not set by the code here (never read before 9.7.5.c
+(* 9.7.3: is the item left unfrozen?  (flex factor non-zero and the base size on the right side of the
+   hypothetical size) *)
+Definition flexible (md : mode) (it : item) : bool :=
+  negb ((if Qeq_dec (factor md it) 0 then true else false) ||
+        match md with
+        | Grow => if Qlt_le_dec (ihyp it) (ibase it) then true else false
+        | Shrink => if Qlt_le_dec (ibase it) (ihyp it) then true else false
+        end).
+(* target_main_size of a non-frozen item is not set by the code in 9.7.3 (it is never read before 9.7.5.c
    writes it): the model puts the hypothetical size there *)
-Definition init_item (md : mode) (it : item) : fst :=
-  let cond := match md with
-              | Grow => if Qlt_le_dec (ihyp it) (ibase it) then true else false
-              | Shrink => if Qlt_le_dec (ibase it) (ihyp it) then true else false
-              end in
-  mkF it ((if Qeq_dec (factor md it) 0 then true else false) || cond) (ihyp it).
+Definition init_item (md : mode) (it : item) : fst := mkF it (negb (flexible md it)) (ihyp it).
 
 Definition used_size (x : fst) : Q := if ffrozen x then ftarget x else ibase (fit x).
 (* 9.7.4 and 9.7.5.b *)
@@ -58,29 +61,6 @@ Definition free_space (avail gap : Q) (l : list fst) : Q :=
 Definition ufs (md : mode) (l : list fst) : Q :=
   sumQ (fun x => if ffrozen x then 0 else factor md (fit x)) l.
 
-(* int(log10(x)) for x > 0, -inf (None) otherwise *)
-Fixpoint il10 (fuel : nat) (p n : Z) : Z :=
-  match fuel with
-  | O => 0%Z
-  | S f => if (10 * p <=? n)%Z then (1 + il10 f (10 * p) n)%Z else 0%Z
-  end.
-Definition ilog10 (n : Z) : Z := il10 (S (Z.to_nat (Z.log2 n))) 1 n.
-Definition mag (x : Q) : option Z :=
-  if Qlt_le_dec 0 x
-  then Some (if Qlt_le_dec x 1 then (- ilog10 (Qfloor (/ x)))%Z else ilog10 (Qfloor x))
-  else None.
-Definition mag_lt (a b : option Z) : bool :=
-  match a, b with
-  | None, Some _ => true
-  | Some x, Some y => (x <? y)%Z
-  | _, None => false
-  end.
-(* the code's test `initial_magnitude < remaining_magnitude` *)
-Definition dec_code (init rem : Q) : bool := mag_lt (mag init) (mag rem).
-(* css-flexbox 9.7.4.b: "if the magnitude of this value is less than the magnitude of the remaining
-   free space" *)
-Definition dec_css (init rem : Q) : bool := if Qlt_le_dec (Qabs init) (Qabs rem) then true else false.
-
 Definition set_target (x : fst) (t : Q) : fst := mkF (fit x) (ffrozen x) t.
 Definition set_frozen (x : fst) : fst := mkF (fit x) true (ftarget x).
 
@@ -88,23 +68,26 @@ Definition gsum (l : list fst) : Q := sumQ (fun x => if ffrozen x then 0 else ig
 Definition ssum (l : list fst) : Q :=
   sumQ (fun x => if ffrozen x then 0 else ibase (fit x) * ishrink (fit x)) l.
 
-(* the share of the free space an unfrozen item receives (9.7.5.c); None = ZeroDivisionError *)
+(* what is distributed in proportion to (9.7.5.c) *)
+Definition weight (md : mode) (it : item) : Q :=
+  match md with Grow => igrow it | Shrink => ibase it * ishrink it end.
+(* the share of the free space an unfrozen item receives *)
 Definition ratio (md : mode) (l : list fst) (x : fst) : Q :=
   match md with
   | Grow => igrow (fit x) / gsum l
   | Shrink => if Qeq_dec (ssum l) 0 then 0 else (ibase (fit x) * ishrink (fit x)) / ssum l
   end.
 
-(* 9.7.5.c *)
+(* 9.7.5.c for one item *)
+Definition dist1 (md : mode) (rem : Q) (l : list fst) (x : fst) : fst :=
+  if ffrozen x then x
+  else set_target x (if Qeq_dec rem 0 then ibase (fit x) else ibase (fit x) + rem * ratio md l x).
+(* None = ZeroDivisionError (flex_grow_factors_sum == 0) *)
 Definition distribute (md : mode) (rem : Q) (l : list fst) : option (list fst) :=
-  if Qeq_dec rem 0
-  then Some (map (fun x => if ffrozen x then x else set_target x (ibase (fit x))) l)
+  if Qeq_dec rem 0 then Some (map (dist1 md rem l) l)
   else match md with
-       | Grow => if Qeq_dec (gsum l) 0 then None
-                 else Some (map (fun x => if ffrozen x then x
-                                          else set_target x (ibase (fit x) + rem * ratio Grow l x)) l)
-       | Shrink => Some (map (fun x => if ffrozen x then x
-                                       else set_target x (ibase (fit x) + rem * ratio Shrink l x)) l)
+       | Grow => if Qeq_dec (gsum l) 0 then None else Some (map (dist1 md rem l) l)
+       | Shrink => Some (map (dist1 md rem l) l)
        end.
 
 (* 9.7.5.d: (new state, adjustment) *)
@@ -113,59 +96,52 @@ Definition fix_viol (x : fst) : fst * Q :=
   else let c := clamp (fit x) (ftarget x) in (set_target x c, c - ftarget x).
 
 (* 9.7.5.e *)
-Definition freeze (tot : Q) (p : fst * Q) : fst :=
-  let (x, adj) := p in
-  if Qeq_dec tot 0 then set_frozen x
+Definition freeze_b (tot adj : Q) : bool :=
+  if Qeq_dec tot 0 then true
   else if Qlt_le_dec 0 tot
-       then (if Qlt_le_dec 0 adj then set_frozen x else x)
-       else (if Qlt_le_dec adj 0 then set_frozen x else x).
+       then (if Qlt_le_dec 0 adj then true else false)
+       else (if Qlt_le_dec adj 0 then true else false).
+Definition freeze (tot : Q) (p : fst * Q) : fst :=
+  let (x, adj) := p in if freeze_b tot adj then set_frozen x else x.
 
-(* one iteration of the `while not all(frozen)` loop; `cumul` = the code multiplies the variable
-   initial_free_space in place (true for the code, false for the css reference); `dec` = the magnitude test *)
-Definition pass (dec : Q -> Q -> bool) (cumul : bool) (md : mode) (avail gap : Q) (init0 init : Q) (l : list fst)
-  : option (Q * list fst) :=
+(* 9.7.5.b: the free space to distribute in this pass *)
+Definition pass_rem (md : mode) (avail gap init0 : Q) (l : list fst) : Q :=
   let u := ufs md l in
   let rem := free_space avail gap l in
-  let init' := if Qlt_le_dec u 1 then (if cumul then init else init0) * u else (if cumul then init else init0) in
-  let rem' := if dec init' rem then init' else rem in
-  match distribute md rem' l with
+  if Qlt_le_dec u 1
+  then (let s := init0 * u in if Qlt_le_dec (Qabs s) (Qabs rem) then s else rem)
+  else rem.
+
+(* one iteration of the `while not all(frozen)` loop *)
+Definition pass (md : mode) (avail gap init0 : Q) (l : list fst) : option (list fst) :=
+  match distribute md (pass_rem md avail gap init0 l) l with
   | None => None
   | Some l1 =>
       let l2 := map fix_viol l1 in
       let tot := sumQ snd l2 in
-      Some (init', map (freeze tot) l2)
+      Some (map (freeze tot) l2)
   end.
 
 Inductive res := Done (l : list fst) | OutOfFuel | DivZero.
 
-Fixpoint loop (dec : Q -> Q -> bool) (cumul : bool) (md : mode) (avail gap init0 : Q) (fuel : nat) (init : Q) (l : list fst) : res :=
+Fixpoint loop (md : mode) (avail gap init0 : Q) (fuel : nat) (l : list fst) : res :=
   if forallb ffrozen l then Done l
   else match fuel with
        | O => OutOfFuel
-       | S f => match pass dec cumul md avail gap init0 init l with
+       | S f => match pass md avail gap init0 l with
                 | None => DivZero
-                | Some (i', l') => loop dec cumul md avail gap init0 f i' l'
+                | Some l' => loop md avail gap init0 f l'
                 end
        end.
 
-Definition resolve_gen (dec : Q -> Q -> bool) (cumul : bool) (items : list item) (gap avail : Q) : res :=
+(* steps 9.7.1 - 9.7.5 for one line; the fuel is the number of items *)
+Definition resolve (items : list item) (gap avail : Q) : res :=
   let md := choose_mode items gap avail in
   let l0 := map (init_item md) items in
-  let i0 := free_space avail gap l0 in
-  loop dec cumul md avail gap i0 (length items) i0 l0.
-
-(* the model of the code *)
-Definition resolve (items : list item) (gap avail : Q) : res := resolve_gen dec_code true items gap avail.
+  loop md avail gap (free_space avail gap l0) (length items) l0.
 
 Definition targets (r : res) : option (list Q) :=
   match r with Done l => Some (map ftarget l) | _ => None end.
-
-(* ---- css-flexbox-1 9.7 reference: outer size includes the paddings; true magnitudes; the initial free
-   space is not overwritten *)
-Definition css_item (it : item) : item :=
-  mkItem (ibase it) (imin it) (imax it) (igrow it) (ishrink it) (iextra it + ipad it) 0.
-Definition resolve_css (items : list item) (gap avail : Q) : res :=
-  resolve_gen dec_css false (map css_item items) gap avail.
 
 (* ---- validity of the inputs (what the CSS parser / steps 2-3 guarantee) *)
 Definition le_max (t : Q) (m : option Q) : Prop := match m with None => True | Some y => t <= y end.
@@ -173,14 +149,9 @@ Definition lt_max (t : Q) (m : option Q) : Prop := match m with None => True | S
 Definition valid_item (it : item) : Prop :=
   0 <= igrow it /\ 0 <= ishrink it /\ 0 <= ibase it /\ le_max (imin it) (imax it).
 
+(* outer main size of the line after resolution *)
 Definition total (gap : Q) (l : list fst) : Q :=
   sumQ (fun x => ftarget x + iextra (fit x)) l + gaps_len l gap.
 
 (* ---- decidable helpers for the correspondence judge *)
 Definition Qabs_le_b (d eps : Q) : bool := Qle_bool (Qabs d) eps.
-Fixpoint close_list (eps : Q) (a b : list Q) : bool :=
-  match a, b with
-  | [], [] => true
-  | x :: a', y :: b' => Qabs_le_b (x - y) eps && close_list eps a' b'
-  | _, _ => false
-  end.
